@@ -257,7 +257,10 @@ def eidInvalid (e : Eid) : Option String :=
 
 def fmtEidCbor : Format Eid :=
   { name := "eidcbor", parse := parseEid, shw := showEid, enc := encEid, encOk := checkValid, dec := decEid,
-    canon := fun e => decide (CborCanonical e), invalid := fun _ => none }
+    canon := fun e => decide (CborCanonical e),
+    -- the dtn scheme's CBOR form carries URI text (the scheme-specific part): a malformed one must be refused here
+    -- as in the URI parser; the ipn scheme's CBOR form is two numbers, whose range is checked with the bundle (C02)
+    invalid := fun e => match e with | .dtn _ _ => eidInvalid e | _ => none }
 
 def handleEidUri : List String → String
   | ["parse", hex, res] =>
